@@ -183,9 +183,28 @@ def argmin_rule(ctx: Ctx, rule: str = "ARGMIN") -> None:
     nz = Normaliser()
     nz.run_block([s for s in loop.body if isinstance(s, ast.Assign)])
     upd = next((s for s in loop.body if isinstance(s, ast.If)), None)
-    if upd is None or not (isinstance(upd.test, ast.Compare) and len(upd.test.ops) == 1):
+    utest, uneg = (upd.test if upd is not None else None), False
+    while isinstance(utest, ast.UnaryOp) and isinstance(utest.op, ast.Not):
+        utest, uneg = utest.operand, not uneg
+    if upd is None or not (isinstance(utest, ast.Compare) and len(utest.ops) == 1):
         ctx.undetermined(rule, f"{q}: argmin shape", "update test not recognised")
         return
+    if uneg or not isinstance(utest.comparators[0], ast.Name):
+        # normalise `not (a OP b)` / `best OP distance` to `distance OP' best`
+        from ..astutil import negate_cmp
+        op_ = negate_cmp(utest.ops[0]) if uneg else utest.ops[0]
+        l_, r_ = utest.left, utest.comparators[0]
+        if not isinstance(r_, ast.Name) and isinstance(l_, ast.Name) and op_ is not None:
+            l_, r_ = r_, l_
+            op_ = {ast.Lt: ast.Gt, ast.Gt: ast.Lt, ast.LtE: ast.GtE, ast.GtE: ast.LtE}.get(type(op_), type(op_))()
+        if op_ is None:
+            ctx.undetermined(rule, f"{q}: argmin shape", "update test not recognised")
+            return
+        norm_test = ast.Compare(left=l_, ops=[op_], comparators=[r_])
+        ast.copy_location(norm_test, utest)
+        upd = ast.If(test=norm_test, body=upd.body, orelse=upd.orelse)
+        ast.copy_location(upd, utest)
+        upd.lineno, upd.end_lineno = utest.lineno, getattr(utest, "end_lineno", utest.lineno)
     lhs = nz.norm(upd.test.left).canon()
     dist_ok = lhs in (f"abs({cv} + -1*{el})", f"abs(-1*{cv} + {el})", f"abs({el} + -1*{cv})", f"abs(-1*{el} + {cv})")
     ctx.check(dist_ok, rule, f"{q}: compares abs(candidate - element) ({lhs})", function=q, construct="distance is not abs(candidate - element)",
